@@ -145,10 +145,12 @@ impl VisitorMut for AstVerifier {
                         #[cfg(feature = "luau")]
                         Err(_) => match i64::from_str_radix(&text.as_str()[2..], 2) {
                             Ok(num) => num.to_string(),
-                            Err(_) => unreachable!(),
+                            // Otherwise compare the literal as written [e.g. `0x1p4` or `0xffffffffffffffff`]
+                            Err(_) => text.to_string(),
                         },
+                        // Otherwise compare the literal as written [e.g. `0x1p4` or `0xffffffffffffffff`]
                         #[cfg(not(feature = "luau"))]
-                        Err(_) => unreachable!(),
+                        Err(_) => text.to_string(),
                     },
                 };
 
